@@ -8,20 +8,23 @@ import (
 )
 
 // VerifC19LivenessPrinters: for every liveness configuration the station
-// accepts at start-up (each cache off / unbounded / bounded, capacities 0-2),
+// accepts at start-up (each cache off / unbounded / bounded, capacities -1, 0, 1, 2
+// - a capacity is a plain integer of the configuration file, a negative one is
+// accepted and means "default size"),
 // the tester's statistics printers - run by the 5-second stats tick - never
 // panic, on a fresh tester and after queries.
 func VerifC19LivenessPrinters() {
 	verifnd.Sequential()
 	conf := &Config{}
-	live, nonLive := verifnd.Choose("live", 4), verifnd.Choose("nonlive", 4) // off, cap 0, 1, 2
+	live, nonLive := verifnd.Choose("live", 5), verifnd.Choose("nonlive", 5) // off, cap 0, 1, 2, -1
+	caps := []int{0, 0, 1, 2, -1}
 	if live > 0 {
 		conf.CacheDuration = "1h"
-		conf.CacheCapacity = live - 1
+		conf.CacheCapacity = caps[live]
 	}
 	if nonLive > 0 {
 		conf.CacheDurationNonLive = "10m"
-		conf.CacheCapacityNonLive = nonLive - 1
+		conf.CacheCapacityNonLive = caps[nonLive]
 	}
 	verifnd.Finding("C19-F2", live > 0 && nonLive == 0)
 	t, err := New(conf)
